@@ -12,6 +12,7 @@ J event_to_json(const Event& e) {
     switch (e.op) {
     case OP_LOAD:
     case OP_UNLOAD:
+    case OP_RECYCLE:
         o.set("recs", ints(e.recs));
         break;
     case OP_UPDATE:
